@@ -3,7 +3,9 @@
 
 /// programs that build each kind of value; each has `main()->bool` and `v_aux()`
 pub fn value_kinds() -> Vec<(String, String)> {
-    let t = |l: &str, p: &str| (format!("template:{l}"), p.to_string());
+    // ballast above the std library's transient instantiation peak: see carriers.rs
+    let ballast = "b".repeat(1400);
+    let t = |l: &str, p: &str| (format!("template:{l}"), format!("let v_ballast = \"{ballast}\";{p}"));
     vec![
         t("bigints", r#"
 fn v_pow(v_n: int)->int{ 7 ** v_n }
@@ -71,6 +73,11 @@ fn v_aux()->int{ range(1, 9).map(v_bad).map((v_x: int)->{v_x + 1}).to_array().le
 fn main()->bool{
     is_error(v_aux()) && if_error(v_bad(3), 7) == 7 && get_error(v_bad(6)) == some("bad 6") && v_bad(4) == 4
 }
+"#),
+        t("guarded-big-allocations", r#"
+fn v_big(v_n: int)->int{ ("ab" * v_n).len() }
+fn v_aux()->int{ if_error(v_big(4000), 0 - 1) + if_error(range(700).to_array().len(), 0 - 1) + if_error(if(2 ** 30000 > 0, 1, 0), 0 - 1) }
+fn main()->bool{ v_aux() == 8701 && if_error(cast<Optional<int>>(none()).value("m" * 2500), 0 - 1) == 0 - 1 && get_error(error("e" * 3000)).has_value() }
 "#),
         t("generators", r#"
 fn v_aux()->Sequence<int>{ count().to_generator().map((v_x: int)->{v_x * 2}).filter((v_x: int)->{v_x % 3 == 0}).take(10).to_array() }
